@@ -36,7 +36,7 @@ FORMS = ("base", "newtype", "alias", "stralias", "final", "fwdref")
 EXTRA = ("fwdref_newtype", "fwdref_alias", "fwdref_stralias")  # "order" unit only
 DEPTH3 = {"quick": 4, "thorough": 6}
 CLOSURE_CAP = 400_000  # states; the closure runs must end by exhaustion, not by this cap
-VIOL_CAP = 300  # violations analysed per unit (each is minimised); the rest are counted
+VIOL_CAP = 300  # violations analysed per unit (each is minimised); beyond it the unit stops
 LOOKUPS = ("getitem", "get")
 
 
@@ -182,7 +182,12 @@ def stored_of(hist):
 
 
 def sid(fam, stored, sn):
-    return h64(fam.tag, tuple(sorted(stored)), sn)
+    """State identity inside one exploration (hashed to 64 bits only when reported in res.states)."""
+    return (tuple(sorted(stored)), sn)
+
+
+def state_hash(fam, key):
+    return h64(fam.tag, ",".join(map(str, key[0])), ";".join(lb + "=" + v for lb, v in key[1]))
 
 
 def got_of(op, out):
@@ -236,15 +241,11 @@ def rel(fam, ki, o):
     return "foreign-value"
 
 
-def expect(fam, model, ki):
+def judge_lookup(fam, model, op, ki, got):
+    """-> (mode | None, model path, agreed with the primary reading)."""
     k = fam.keys[ki]
     exp, path = model.lookup(k)
-    return exp, path, model.admissible(k)
-
-
-def judge_lookup(fam, model, op, ki, got, expected=None):
-    """-> (mode | None, model path, agreed with the primary reading)."""
-    exp, path, adm = expected or expect(fam, model, ki)
+    adm = model.admissible(k)
     if op == "get":
         exp = DEFAULT_OUT if exp == KEYERROR else exp
         adm = {DEFAULT_OUT if o == KEYERROR else o for o in adm}
@@ -332,9 +333,11 @@ def report(fam, hist, probe, mode, res, X):
     """Minimise, build the signature from the minimal witness, record."""
     X["viol"] = X.get("viol", 0) + 1
     if X["viol"] > VIOL_CAP:
+        # a gross fault (e.g. every miss recursing to the interpreter limit): stop exploring this unit
         res.hit("violations-beyond-per-unit-analysis-cap")
-        if X["viol"] == VIOL_CAP + 1:
-            res.caps.append(f"more than {VIOL_CAP} violations in one unit: the rest counted, not analysed")
+        if not X.get("abort"):
+            X["abort"] = True
+            res.caps.append(f"more than {VIOL_CAP} violations in one unit: exploration of that unit stopped early")
         return
     hmin = minimise(fam, hist, probe, mode)
     _, detail = run_probe(fam, hmin, probe)
@@ -377,12 +380,16 @@ def process_state(fam, hist, res, X, skip_inserts=False):
     items0 = list(dict.items(c))
     s0 = snap(fam, c)
     memo_labels = {lb for lb, _ in s0}
+    outs = X["outs"]
+    own = [tuple(sorted(fam.form_of[j] for j in stored if fam.base_of[j] == b)) for b in range(fam.nb)]
     succs, vec, moved = [], [], {}
     for ki in range(fam.nk):
         exp, path = model.lookup(fam.keys[ki])
         for op in LOOKUPS:
             got = probe(c, fam, op, ki)
             res.evals += 1
+            # abstract (case, outcome): operation, key form, model path, forms stored for the same base, memoised or not
+            outs.add((op, fam.form_of[ki], path, own[fam.base_of[ki]], fam.labels[ki] in memo_labels))
             if got != (DEFAULT_OUT if op == "get" and exp == KEYERROR else exp):
                 # not the primary reading: the full admissible-set judgement
                 mode, _, _ = judge_lookup(fam, model, op, ki, got)
@@ -460,6 +467,8 @@ def settle_later(fam, res, X, final=False, maxdepth=None):
         hist, op, ki, sid1, vec0 = item
         vec1 = X["vec"].get(sid1)
         if vec1 is None:
+            if X.get("abort"):
+                continue
             if not final:
                 keep.append(item)
                 continue
@@ -495,6 +504,9 @@ def explore(fam, roots, maxdepth, res, X, cap=None, skip_root_inserts=False, per
     while level:
         nxt = []
         for h in level:
+            if X.get("abort"):
+                fix, nxt = False, []
+                break
             succs = process_state(fam, h, res, X, skip_inserts=skip_root_inserts and not h)
             res.programs += 1
             if per_state is not None:
@@ -516,7 +528,7 @@ def explore(fam, roots, maxdepth, res, X, cap=None, skip_root_inserts=False, per
         level = nxt
         depth += 1
     settle_later(fam, res, X, final=True, maxdepth=maxdepth)
-    res.states |= seen
+    res.states.update(state_hash(fam, k) for k in seen)
     if not fam.fresh_refs_ok():
         raise RuntimeError("C16 harness: a family ForwardRef got evaluated; ForwardRef equality is no longer by name/module")
     return fix, depth, len(seen)
@@ -581,7 +593,9 @@ def meta(tier):
         "explored = every state reachable from the empty context by {insert fresh key, [k], get(k, default), k in ctx (stored k)}; "
         "in every explored state every operation of the alphabet on every key is run on a rebuilt copy and judged against the "
         "reference model, and after every state-changing lookup every key is looked up again and compared with before; "
-        "evals = judged operations; programs = states processed (overlaps between units counted again)",
+        "evals = judged operations; programs = states processed (overlaps between units counted again); outcomes = distinct "
+        "abstract (operation, key form, model path, forms stored for the same base, key memoised?) cells, non-trivial = "
+        "answered through a fallback",
         "bounds": {
             "closure": "2 bases x 6 forms: fixpoint (all histories of any length)",
             "order": "1 base x 9 forms (6 + forward references naming the NewType/alias/string alias): fixpoint",
@@ -605,7 +619,7 @@ def meta(tier):
 
 def run_unit(unit, tier, res):
     kind, nb = unit[0], unit[1]
-    X = {"cov": {}}
+    X = {"cov": {}, "outs": set()}
     if kind == "closure":
         fam = family(nb)
         fix, depth, n = explore(fam, [()], None, res, X, cap=CLOSURE_CAP)
@@ -630,6 +644,11 @@ def run_unit(unit, tier, res):
         raise ValueError(unit)
     for k, v in X["cov"].items():
         res.hit(f"{tagu}:{k}", v)
+    for o in X["outs"]:
+        h = h64(fam.tag, *map(str, o))
+        res.outcomes.add(h)
+        if o[2] in ("unwrapped", "fwdref"):  # non-trivial: answered through a fallback
+            res.nontrivial.add(h)
     if kind != "depth":
         res.hit(f"{tagu}:fixpoint-reached" if fix else f"{tagu}:fixpoint-NOT-reached")
         res.hit(f"{tagu}:bfs-levels", depth)
@@ -646,4 +665,4 @@ def replay(case, tier, res):
     res.evals += 1
     mode, _ = run_probe(fam, hist, probe)
     if mode:
-        report(fam, hist, probe, mode, res, {"cov": {}})
+        report(fam, hist, probe, mode, res, {"cov": {}, "outs": set()})
